@@ -268,7 +268,7 @@ def _run_impl_batch(lines, timeout):
             res.extend([SKIPPED] * len(rest))
             break
         try:
-            rc, out, err = run_lines(RUN, rest, timeout=min(left, cap))
+            rc, out, err = run_lines(RUN, rest, timeout=min(left, max(cap, 0.5 * len(rest))))
         except subprocess.TimeoutExpired as e:
             got = (e.stdout or b"")
             got = got.decode() if isinstance(got, bytes) else got
